@@ -204,6 +204,13 @@ def cases(tier, seed):
                             if quick and rs != 0 and not ((n, p) == (12, 6) and spec == "geometric"):
                                 continue
                             out.append(dict(kind="solvers", target=target, backend=backend, shape=[n, p], spec=spec, n_modes=k, rs=rs, solver="all"))
+    # tall and skinny matrices (n >= 10 p) with a wide dynamic range: the corner where forming X^H X (which squares the condition
+    # number) would be a tempting shortcut for the "exact" solver
+    for target in ("Decomposer", "_SVD", "SVD"):
+        for backend in ("numpy", "complex"):
+            for (n, p) in ([(80, 8)] if quick else [(80, 8), (60, 6), (120, 8)]):
+                for k in range(1, p + 1):
+                    out.append(dict(kind="solvers", target=target, backend=backend, shape=[n, p], spec="steep", n_modes=k, rs=0, solver="all"))
     # ---------------- kwargs on the linalg wrappers and PCA
     for target in ("Decomposer", "_SVD", "SVD", "PCA"):
         for backend in ("numpy", "complex", "dask"):
